@@ -4,4 +4,4 @@
 cd /verif
 N=${1:-4}
 export VERIF_JOBS=$((16 / N))
-ls -d seeded/*/ | xargs -P "$N" -I{} bash -c 'd={}; id=$(basename $d); prop=${id%%-*}; out=$(tools/seedtest.sh $prop /verif/$d 2>&1); echo "$id $(echo "$out" | grep -E "^SEED" | sed "s/.*: //") | $(echo "$out" | grep -E "tier=" | tail -1 | sed "s/paths=.*//") | $(echo "$out" | grep "check exit")"' > seed_regression.log 2>&1
+ls -d seeded/*/ | xargs -P "$N" -I{} bash -c 'd={}; id=$(basename $d); prop=${id%%-*}; out=$(tools/seedtest.sh $prop /verif/$d 2>&1); echo "$id $(echo "$out" | grep -E "^SEED" | sed "s/^SEED [^:]*: //") | $(echo "$out" | grep -E "tier=" | tail -1 | sed "s/paths=.*//") | $(echo "$out" | grep "check exit")"' > seed_regression.log 2>&1
